@@ -333,3 +333,173 @@ pub fn twin<S: Src>(s: &mut S) {
         assert!(false, "TWIN");
     });
 }
+
+// =========================================================================================
+// C15: compatible evidence joins to its most specific type; contradictions conflict.
+// Obligations are limited to the classes the property statement names.
+// =========================================================================================
+
+/// Reference order on usages: `Some(join)` for the pairs the statement calls compatible
+/// (raw bytes below everything; numeric below unsigned / signed / address; unsigned below
+/// address; equal usages), `None` where no obligation is imposed.
+fn usage_join(a: u8, b: u8) -> Option<u8> {
+    const BYTES: u8 = 0;
+    const NUM: u8 = 1;
+    const UNS: u8 = 2;
+    const SIG: u8 = 3;
+    const ADDR: u8 = 5;
+    if a == b {
+        return Some(a);
+    }
+    if a == BYTES {
+        return Some(b);
+    }
+    if b == BYTES {
+        return Some(a);
+    }
+    let up = |lo: u8, hi: u8| (lo == NUM && (hi == UNS || hi == SIG || hi == ADDR)) || (lo == UNS && hi == ADDR);
+    if up(a, b) {
+        return Some(b);
+    }
+    if up(b, a) {
+        return Some(a);
+    }
+    None
+}
+
+/// Usage pairs the statement calls plainly incompatible: signed against unsigned or
+/// address, and two different special-purpose usages (bool/address/selector/function).
+fn usage_contradict(a: u8, b: u8) -> bool {
+    const UNS: u8 = 2;
+    const SIG: u8 = 3;
+    const ADDR: u8 = 5;
+    let special = |x: u8| x >= 4;
+    (a == SIG && (b == UNS || b == ADDR)) || (b == SIG && (a == UNS || a == ADDR)) || (special(a) && special(b) && a != b)
+}
+
+/// Word x Word, both orders decided at once (a, b symbolic over all of D's words).
+pub fn join_word_word<S: Src>(s: &mut S) {
+    let a = elem(s, K_WORD);
+    let b = elem(s, K_WORD);
+    let (wa, ua, wb, ub) = match (&a, &b) {
+        (TE::Word { width: wa, usage: ua }, TE::Word { width: wb, usage: ub }) => {
+            (width_code(*wa), usage_code(*ua), width_code(*wb), usage_code(*ub))
+        }
+        _ => return,
+    };
+    with_state(|st| {
+        let (e, q, x) = merge2(a, b, st);
+        let n = normal(&e, q, x);
+        s.reached();
+        let widths_agree = wa == wb || wa == 0 || wb == 0;
+        if widths_agree {
+            if let Some(u) = usage_join(ua, ub) {
+                let w = if wa != 0 { wa } else { wb };
+                assert!(n.kind != K_CONFLICT, "C15 join: compatible word evidence reported as a conflict");
+                assert!(n.kind == K_WORD && n.width == w, "C15 join: compatible words do not keep the known width");
+                assert!(n.kind == K_WORD && n.usage == u, "C15 join: compatible words do not keep the more specific usage");
+                assert!(!n.eq12 && n.extra == 0, "C15 join: word join emitted equalities or judgements");
+            }
+        }
+        if wa != 0 && wb != 0 && wa != wb {
+            assert!(n.kind == K_CONFLICT, "C15 contradiction: two different known widths do not conflict");
+        }
+        if usage_contradict(ua, ub) {
+            assert!(n.kind == K_CONFLICT, "C15 contradiction: incompatible usages do not conflict");
+        }
+        std::mem::forget(e);
+    });
+}
+
+/// Equal constructors keep their structure and emit exactly their component equalities.
+pub fn join_same_constructor<S: Src, const K: u8>(s: &mut S) {
+    let a = elem(s, K);
+    let b = elem(s, K);
+    with_state(|st| {
+        let m = merge(a.clone(), b.clone(), tv(0), st);
+        s.reached();
+        assert!(m.judgements.is_empty() && m.ty_vars.is_empty(), "C15 join: same-constructor join emitted judgements or variables");
+        match (&a, &b, &m.expression) {
+            (TE::Mapping { key: k1, value: v1 }, TE::Mapping { key: k2, value: v2 }, TE::Mapping { key, value }) => {
+                assert!((*key == *k1 || *key == *k2) && (*value == *v1 || *value == *v2), "C15 join: mapping join does not keep its components");
+                if a != b {
+                    let mut has_k = k1 == k2;
+                    let mut has_v = v1 == v2;
+                    let mut i = 0;
+                    while i < m.equalities.len() {
+                        let e = m.equalities[i];
+                        let is_k = (e.left == *k1 && e.right == *k2) || (e.left == *k2 && e.right == *k1);
+                        let is_v = (e.left == *v1 && e.right == *v2) || (e.left == *v2 && e.right == *v1);
+                        assert!(is_k || is_v, "C15 join: mapping join emitted an equality that is not a component pair");
+                        has_k |= is_k;
+                        has_v |= is_v;
+                        i += 1;
+                    }
+                    assert!(has_k && has_v, "C15 join: mapping join does not unify its key and value components");
+                }
+            }
+            (TE::DynamicArray { element: e1 }, TE::DynamicArray { element: e2 }, TE::DynamicArray { element }) => {
+                assert!(*element == *e1 || *element == *e2, "C15 join: dynamic array join does not keep its element");
+                if a != b {
+                    assert!(m.equalities.len() == 1, "C15 join: dynamic array join must emit exactly its element equality");
+                    let e = m.equalities[0];
+                    assert!((e.left == *e1 && e.right == *e2) || (e.left == *e2 && e.right == *e1), "C15 join: dynamic array join emitted a wrong equality");
+                }
+            }
+            (
+                TE::FixedArray { element: e1, length: l1 },
+                TE::FixedArray { element: e2, length: l2 },
+                TE::FixedArray { element, length },
+            ) => {
+                assert!(*l1.low() == *l2.low(), "C15 join: fixed arrays of different lengths joined");
+                assert!((*element == *e1 || *element == *e2) && *length.low() == *l1.low() && *length.high() == 0, "C15 join: fixed array join does not keep element / length");
+                if a != b {
+                    assert!(m.equalities.len() == 1, "C15 join: fixed array join must emit exactly its element equality");
+                    let e = m.equalities[0];
+                    assert!((e.left == *e1 && e.right == *e2) || (e.left == *e2 && e.right == *e1), "C15 join: fixed array join emitted a wrong equality");
+                }
+            }
+            (TE::FixedArray { length: l1, .. }, TE::FixedArray { length: l2, .. }, other) => {
+                // different lengths: the statement names no obligation; equal lengths must join
+                assert!(*l1.low() != *l2.low(), "C15 join: equal-length fixed arrays did not join to a fixed array");
+                let _ = other;
+            }
+            _ => assert!(false, "C15 join: equal constructors did not keep their structure"),
+        }
+        std::mem::forget(m);
+    });
+}
+
+/// `Any` is the identity (both orders), for every x in D of kind K.
+pub fn join_any_identity<S: Src, const K: u8>(s: &mut S) {
+    let x = elem(s, K);
+    with_state(|st| {
+        let nx = normal(&x, false, 0);
+        let (e1, q1, x1) = merge2(TE::Any, x.clone(), st);
+        let (e2, q2, x2) = merge2(x, TE::Any, st);
+        s.reached();
+        assert!(normal(&e1, q1, x1) == nx, "C15 join: merge(Any, x) is not x");
+        assert!(normal(&e2, q2, x2) == nx, "C15 join: merge(x, Any) is not x");
+        std::mem::forget(e1);
+        std::mem::forget(e2);
+    });
+}
+
+/// Plain contradictions across constructors: a mapping against an array (dynamic or
+/// fixed) or against a sized word, in both orders.
+pub fn join_contradictions<S: Src, const K: u8>(s: &mut S) {
+    let m = elem(s, K_MAPPING);
+    let o = elem(s, K);
+    if let TE::Word { width, .. } = &o {
+        s.assume(width.is_some());
+    }
+    with_state(|st| {
+        let (e1, _, _) = merge2(m.clone(), o.clone(), st);
+        let (e2, _, _) = merge2(o, m, st);
+        s.reached();
+        assert!(matches!(e1, TE::Conflict { .. }), "C15 contradiction: mapping against array / sized word does not conflict");
+        assert!(matches!(e2, TE::Conflict { .. }), "C15 contradiction: array / sized word against mapping does not conflict");
+        std::mem::forget(e1);
+        std::mem::forget(e2);
+    });
+}
